@@ -16,11 +16,11 @@ import (
 
 // logical operations of the replay cache model
 type rOp struct {
-	Kind   int // 0 present, 1 clear, 2 advance
-	CName  []string
-	CT     int64 // logical client time, microseconds
-	SName  []string
-	DT     int64
+	Kind  int // 0 present, 1 clear, 2 advance
+	CName []string
+	CT    int64 // logical client time, microseconds
+	SName []string
+	DT    int64
 }
 
 func (o rOp) jv() jv.V {
@@ -140,11 +140,11 @@ func goid() int64 {
 }
 
 type coSched struct {
-	mu      sync.Mutex
-	tid     map[int64]int        // goroutine id -> thread index
-	parked  map[int]chan struct{} // thread -> resume channel
-	done    map[int]bool
-	trace   []string
+	mu     sync.Mutex
+	tid    map[int64]int         // goroutine id -> thread index
+	parked map[int]chan struct{} // thread -> resume channel
+	done   map[int]bool
+	trace  []string
 }
 
 func (s *coSched) yield(point string) {
